@@ -309,3 +309,55 @@ Proof.
   - constructor; cbn; [constructor|lia|intros ? ? ? []].
   - intros j _. reflexivity.
 Qed.
+
+(* ---------- the store of solvers: operations on one solver leave every other solver alone (C14) ---------- *)
+
+Lemma sget_sset_same m k s : sget (sset m k s) k = Some s.
+Proof.
+  induction m as [|[i t] r IH]; cbn [sset sget].
+  - rewrite Nat.eqb_refl. reflexivity.
+  - destruct (Nat.eqb i k) eqn:E; cbn [sget]; rewrite E; auto.
+Qed.
+
+Lemma sget_sset_other m k j s : j <> k -> sget (sset m k s) j = sget m j.
+Proof.
+  intros Hjk. induction m as [|[i t] r IH]; cbn [sset sget].
+  - destruct (Nat.eqb k j) eqn:E; [apply Nat.eqb_eq in E; congruence|reflexivity].
+  - destruct (Nat.eqb i k) eqn:E; cbn [sget].
+    + apply Nat.eqb_eq in E. subst i. destruct (Nat.eqb k j) eqn:E2; [apply Nat.eqb_eq in E2; congruence|reflexivity].
+    + destruct (Nat.eqb i j); auto.
+Qed.
+
+Theorem sstep_isolated m o k : touches o k = false -> sget (sstep m o) k = sget m k.
+Proof.
+  destruct o as [i new|i j|i]; cbn [touches sstep]; intros H; auto.
+  - destruct (sget m i); auto. apply sget_sset_other. apply Nat.eqb_neq in H. congruence.
+  - destruct (sget m i); auto. destruct (sget m j); auto. apply sget_sset_other. apply Nat.eqb_neq in H. congruence.
+Qed.
+
+Theorem history_isolated ops : forall m k,
+  forallb (fun o => negb (touches o k)) ops = true -> sget (fold_left sstep ops m) k = sget m k.
+Proof.
+  induction ops as [|o r IH]; intros m k H; cbn [fold_left]; [reflexivity|].
+  cbn [forallb] in H. apply andb_true_iff in H as [H1 H2]. rewrite IH by auto.
+  apply sstep_isolated. apply negb_true_iff. exact H1.
+Qed.
+
+Theorem branch_copies m i j s : sget m i = Some s -> sget m j = None -> i <> j ->
+  sget (sstep m (SBranch i j)) j = Some s /\ sget (sstep m (SBranch i j)) i = Some s.
+Proof.
+  intros Hi Hj Hij. cbn [sstep]. rewrite Hi, Hj. split.
+  - apply sget_sset_same.
+  - rewrite sget_sset_other by auto. exact Hi.
+Qed.
+
+(* what a solver of the store accepts depends only on the additions made to it and to its ancestors before the branch *)
+Theorem add_only_own m i new k s : sget m i = Some s -> Inv s ->
+  sget (sstep m (SAdd i new)) i = Some (fe_add s new) /\
+  (forall rho, models rho (cs (fe_add s new)) = models rho (cs s) && models rho new) /\
+  (k <> i -> sget (sstep m (SAdd i new)) k = sget m k).
+Proof.
+  intros Hi Hs. cbn [sstep]. rewrite Hi. split; [apply sget_sset_same|]. split.
+  - apply add_sem. exact Hs.
+  - intros Hk. apply sget_sset_other. exact Hk.
+Qed.
